@@ -13,6 +13,7 @@ import Driver.OpsHeader
 import Driver.OpsFsPath
 import Driver.OpsFsCache
 import Driver.OpsConn
+import Driver.OpsLimits
 import Driver.OpsDateIP
 import Driver.OpsLB
 import Driver.OpsPipe
@@ -36,7 +37,7 @@ import Driver.OpsMultipartC35
 open Fh Fh.Driver
 
 def handlers : List (String → List Bytes → Option String) :=
-  [opsByteClass, opsIntCodec, opsPath, opsFs, opsArgs, opsHeader, opsConn, opsDateIP, opsFsPath, opsLB, opsPipe, opsCookie, opsDialer, opsWorkerPool, opsFsCache, opsRetry, opsURI, opsHeaderSet, opsAdaptor, opsRedirect, opsPrefork, opsStreamC34, opsTlsRoute, opsHostPool, opsCompressC22, opsLockset, opsServerCounters, opsMultipartC35]
+  [opsByteClass, opsIntCodec, opsPath, opsFs, opsArgs, opsHeader, opsConn, Fh.Driver.C07.opsLimits, opsDateIP, opsFsPath, opsLB, opsPipe, opsCookie, opsDialer, opsWorkerPool, opsFsCache, opsRetry, opsURI, opsHeaderSet, opsAdaptor, opsRedirect, opsPrefork, opsStreamC34, opsTlsRoute, opsHostPool, opsCompressC22, opsLockset, opsServerCounters, opsMultipartC35]
 
 def dispatch (line : String) : String :=
   match (line.splitOn " ").filter (· ≠ "") with
